@@ -307,6 +307,7 @@ fn split_last<'a, 'b>(a: &'a [&'b str]) -> Option<(&'a [&'b str], &'b str)> {
     Some((r, *l))
 }
 fn len_err(e: &LenError) -> String {
+    crate::util::touch(e);
     format!(
         "err(len(req={},len={},src={:?},layer={:?},off={}))",
         e.required_len, e.len, e.len_source, e.layer, e.layer_start_offset
@@ -829,6 +830,7 @@ fn ws_line(cap: usize, f: impl FnOnce(&mut [u8]) -> String) -> String {
 }
 
 fn space_err(e: &err::SliceWriteSpaceError) -> String {
+    crate::util::touch(e);
     format!(
         "err(space(req={},len={},layer={:?},off={}))",
         e.required_len, e.len, e.layer, e.layer_start_offset
@@ -911,12 +913,14 @@ fn src_of(s: &str) -> Option<LenSource> {
     })
 }
 fn lim_err(e: &err::io::LimitedReadError) -> String {
+    crate::util::touch(e);
     match e {
         err::io::LimitedReadError::Io(e) => io_err(e),
         err::io::LimitedReadError::Len(l) => len_err(l),
     }
 }
 fn auth_lim_err(e: &err::ip_auth::HeaderLimitedReadError) -> String {
+    crate::util::touch(e);
     use err::ip_auth::HeaderLimitedReadError::*;
     match e {
         Io(e) => io_err(e),
@@ -925,6 +929,7 @@ fn auth_lim_err(e: &err::ip_auth::HeaderLimitedReadError) -> String {
     }
 }
 fn ipv6exts_lim_err(e: &err::ipv6_exts::HeaderLimitedReadError) -> String {
+    crate::util::touch(e);
     use err::ipv6_exts::HeaderLimitedReadError::*;
     match e {
         Io(e) => io_err(e),
@@ -1035,6 +1040,7 @@ fn too_big_usize(e: &err::ValueTooBigError<usize>) -> String {
     )
 }
 fn build_err(e: &err::packet::BuildWriteError) -> String {
+    crate::util::touch(e);
     use err::packet::BuildWriteError::*;
     match e {
         Io(e) => io_err(e),
@@ -1046,6 +1052,7 @@ fn build_err(e: &err::packet::BuildWriteError) -> String {
     }
 }
 fn build_slice_err(e: &err::packet::BuildSliceWriteError) -> String {
+    crate::util::touch(e);
     use err::packet::BuildSliceWriteError::*;
     match e {
         Space(n) => format!("err(space({}))", n),
